@@ -335,7 +335,7 @@ def gravity(chk, P, S):
                 ok = False
         chk.judge(ok, "MUSTCALL", "Gravity:%s:invalidateForceCache" % u.name.split("::")[-1], u.loc,
                   "a Gravity parameter is changed without invalidating the (Position-stage) force cache")
-    chk.judge(len(seen) >= 5, "MUSTCALL", "Gravity:setters>=5", upd.loc, "parameter setters found: %d" % len(seen))
+    chk.shape(len(seen) >= 5, "MUSTCALL", "Gravity:setters>=5", upd.loc, "parameter setters found: %d" % len(seen))
     inval = P.fn(GI + "::invalidateForceCache")
     chk.judge(any(True for _ in inval.events(lambda e: e["k"] == "call" and INVAL.search(e.get("fn", "")) and GI + "::forceCacheIx" in _fields_in(e["x"]))),
               "MUSTCALL", "Gravity:invalidateForceCache->markCacheValueNotRealized(forceCacheIx)", inval.loc, "invalidateForceCache marks the force cache not realized")
